@@ -127,7 +127,8 @@ def run(ctx):
     _dilation_round(ctx)
     _seed(ctx)
     _selection(ctx)
-    ctx.require_count("C23", len(ctx.obligations), 12)
+    _fresh_connectivity(ctx)
+    ctx.require_count("C23", len(ctx.obligations), 14)
 
 
 def _dilation_round(ctx):
@@ -265,3 +266,76 @@ def _selection(ctx):
         want_leaf = rat_compare("ne", to_rat(field_atom("p")), b)
         okl = isinstance(leaf, SymBool) and leaf.key == want_leaf.key and leaf.negated == want_leaf.negated
         ctx.ob("R23.3", f"RemoveFloatingMaterial.__call__:material-mask:bg={b}", okl, "a cell is material iff its index differs from the background index", leaf, want_leaf)
+
+
+def _fresh_connectivity(ctx):
+    """A connectivity map is used only for the design it was computed from: between `X = compute_*_connection(m)`
+    and every use of X there is no assignment to m (a syntax-directed walk with a version counter per design
+    variable; a loop whose body assigns the design invalidates on entry and on exit)."""
+    import ast
+
+    ix = ctx.index
+    mod = "fdtdx.objects.device.parameters.binary_transform"
+    producers = ("compute_polymer_connection", "compute_air_connection")
+    for fname in ("connect_holes_and_structures", "remove_floating_polymer", "remove_polymer_non_connected_to_x_max_middle"):
+        try:
+            fi = ix.function(f"{mod}.{fname}")
+        except Exception:
+            continue
+        ctx.unit(fi.where())
+        version = {}
+        maps = {}  # connectivity variable -> (design variable, version at definition, line)
+        stale, uses = [], 0
+
+        def assigned(stmts):
+            out = set()
+            for st in stmts:
+                for n in ast.walk(st):
+                    if isinstance(n, ast.Assign):
+                        for t in n.targets:
+                            for x in ast.walk(t):
+                                if isinstance(x, ast.Name):
+                                    out.add(x.id)
+            return out
+
+        def use_check(node, skip=None):
+            nonlocal uses
+            for n in ast.walk(node):
+                if isinstance(n, ast.Name) and isinstance(n.ctx, ast.Load) and n.id in maps and n is not skip:
+                    design, v, line = maps[n.id]
+                    uses += 1
+                    if version.get(design, 0) != v:
+                        stale.append((n.id, f"computed at line {line}", f"used at line {n.lineno} after `{design}` changed"))
+
+        def walk(stmts):
+            for st in stmts:
+                if isinstance(st, ast.For):
+                    use_check(st.iter)
+                    changed = assigned(st.body)
+                    for v in changed:
+                        version[v] = version.get(v, 0) + 1  # a previous iteration may have changed it
+                    walk(st.body)
+                    for v in changed:
+                        version[v] = version.get(v, 0) + 1
+                    continue
+                if isinstance(st, ast.If):
+                    use_check(st.test)
+                    walk(st.body)
+                    walk(st.orelse)
+                    continue
+                if isinstance(st, ast.Assign) and isinstance(st.value, ast.Call) and ast.unparse(st.value.func).split(".")[-1] in producers and len(st.targets) == 1 and isinstance(st.targets[0], ast.Name):
+                    use_check(st.value)
+                    arg = st.value.args[0] if st.value.args else next((kw.value for kw in st.value.keywords if kw.arg == "matrix"), None)
+                    if isinstance(arg, ast.Name):
+                        maps[st.targets[0].id] = (arg.id, version.get(arg.id, 0), st.lineno)
+                    continue
+                use_check(st)
+                if isinstance(st, ast.Assign):
+                    for t in st.targets:
+                        for x in ast.walk(t):
+                            if isinstance(x, ast.Name) and isinstance(x.ctx, ast.Store):
+                                version[x.id] = version.get(x.id, 0) + 1
+                                maps.pop(x.id, None) if x.id in maps and not (isinstance(st.value, ast.Call)) else None
+
+        walk(fi.node.body)
+        ctx.ob("R23.4", f"{mod}.{fname}:fresh-connectivity", not stale and uses > 0, "every use of a connectivity map sees the design it was computed from: no assignment to the design lies between computing the map and using it (the final clean-up after the air pass recomputes it)", stale[:3] if stale else f"{uses} uses", "map computed from the current design")
